@@ -7,6 +7,7 @@ package json
 
 import (
 	"net/netip"
+	"net/url"
 	"strconv"
 	"time"
 
@@ -15,6 +16,7 @@ import (
 
 var _ time.Time
 var _ netip.Addr
+var _ url.URL
 var _ = strconv.FormatInt
 var _ jx.Decoder
 
@@ -140,3 +142,32 @@ func specParseAddr(s string) netip.Addr {
 //@   modifies log:strs, cb:checkVersion
 //@   ensures one:   err == nil ==> len(vLogStr("strs")) == len(old(vLogStr("strs"))) + 1
 //@   ensures exact: err == nil ==> v == specParseAddr(vLogStr("strs")[len(vLogStr("strs"))-1])
+
+// ---------------------------------------------------------------------------
+// URIs (C13): the encoder writes url.URL.String(); the inverse of String() is url.Parse (package net/url:
+// "Parse parses a raw url into a URL structure"; String "reassembles the URL"). The decoder must therefore
+// answer with url.Parse of exactly the text it read. (url.ParseRequestURI is NOT that inverse: it assumes a
+// request line, keeps a fragment inside the path and refuses relative references.)
+// ---------------------------------------------------------------------------
+
+//@ extern func url.Parse(rawURL string) (u *url.URL, err error)
+//@   pure
+//@ extern func url.ParseRequestURI(rawURL string) (u *url.URL, err error)
+//@   pure
+//@   ensures nonnil: err == nil ==> u != nil
+
+func specURLParse(s string) *url.URL {
+	u, _ := url.Parse(s)
+	return u
+}
+
+func specURLParseOK(s string) bool {
+	_, err := url.Parse(s)
+	return err == nil
+}
+
+//@ func DecodeURI(i *jx.Decoder) (v url.URL, err error)
+//@   requires dec: i != nil
+//@   modifies log:strs
+//@   ensures one:    err == nil ==> len(vLogStr("strs")) == len(old(vLogStr("strs"))) + 1
+//@   ensures parsed__kfURIFragment: err == nil ==> specURLParseOK(vLogStr("strs")[len(vLogStr("strs"))-1]) && specURLParse(vLogStr("strs")[len(vLogStr("strs"))-1]) != nil && v == *specURLParse(vLogStr("strs")[len(vLogStr("strs"))-1])
